@@ -41,9 +41,9 @@ func encodeState(height, tsSeconds uint64) []byte {
 
 // encodePackets is abi.encode of the (dynamic) struct {uint64 height; tuple(bytes32,bytes32)[] packets}.
 func encodePackets(height uint64, packets []attPacket) []byte {
-	out := word(0x20)                      // offset of the struct
-	out = append(out, word(height)...)     // head: height
-	out = append(out, word(0x40)...)       // head: offset of the array inside the struct
+	out := word(0x20)                  // offset of the struct
+	out = append(out, word(height)...) // head: height
+	out = append(out, word(0x40)...)   // head: offset of the array inside the struct
 	out = append(out, word(uint64(len(packets)))...)
 	for _, p := range packets {
 		out = append(out, p.Path[:]...)
